@@ -222,6 +222,8 @@ def _resolve(cls, opts, d, rs, y, case_seed):
       p['n_basis'] = 6 * d
   if p.get('n_basis') == 'd':
     p['n_basis'] = d
+  if isinstance(p.get('n_components'), int) and case_seed % 3 == 1:
+    p['n_components'] = np.int64(p['n_components'])      # an integer taken from a numpy range / parameter grid is a legitimate value of the option
   if p.get('n_chunks') == 'feasible':
     max_chunks = int(sum(c // 2 for c in np.bincount(y)))
     p['n_chunks'] = max_chunks        # >= n/2 - n_classes/2 >= d: the inner covariance is full rank
